@@ -1,6 +1,7 @@
 import StarsimModel.Model.Loop
+import StarsimModel.Model.LoopInstant
 import StarsimModel.Model.Proto
-open StarsimModel StarsimModel.Loop StarsimModel.Proto
+open StarsimModel StarsimModel.Loop StarsimModel.LoopInstant StarsimModel.Proto
 
 /-
 Line protocol (one line in, one line out):
@@ -11,7 +12,16 @@ Line protocol (one line in, one line out):
   ->  ok n=<#funcs> sep=<0/1> mono=<0/1> aligned=<0/1> funcs=<owner:clock:finish:row,…>
          plan=<time:order:owner:clock:k:clockvalue,…> final=<ti after Sim.run of sim and modules,…>
   table  ->  the rows of Gen.loopRows as the model understands them
+  inst <y0> <readings>
+     y0 = the sim's first year in eps (Int); readings = comma list of `<year>:<zero-based day of the year>` shown by a
+     date-based owner's clock at its successive indices
+  ->  ok inc=<0/1: existing days, strictly increasing> v=<the owner's time vector in eps (Model/LoopInstant.lean)>
 -/
+
+def parseReading? (s : String) : Option Reading :=
+  match s.splitOn ":" with
+  | [y, d] => do some ⟨← parseNat? y, ← parseNat? d⟩
+  | _ => none
 
 def parseKind? (s : String) : Option Kind :=
   match s with
@@ -49,6 +59,11 @@ def stepLine (u : Unit) (line : String) : Unit × String :=
               s!"aligned={showBool (alignedB T fl)} " ++
               s!"funcs={showList (fun (f : Func) => s!"{f.owner}:{f.clock}:{showBool f.finish}:{f.row}") fl} " ++
               s!"plan={showList showEntry tr} final={showList (fun m => toString (fin m)) owners}")
+      | _, _ => (u, "bad-op")
+  | ["inst", y0s, rs] =>
+      match parseInt? y0s, (rs.splitOn ",").mapM parseReading? with
+      | some y0, some l =>
+          (u, s!"ok inc={showBool (increasingB l)} v={showList (fun (x : Int) => toString x) (instVec y0 l)}")
       | _, _ => (u, "bad-op")
   | ["table"] =>
       (u, "ok " ++ showList (fun (r : Row) => s!"{r.1}|{r.2.1}|{r.2.2}|{match contIsSimD r with | some true => "sim" | some false => "mod" | none => "?"}") Gen.loopRows)
